@@ -44,7 +44,7 @@ def main():
             patch = os.path.abspath(patch)
             work.append((patch, ("patch", patch), props, None))
     elif a.mode == "refactors":
-        dirs = a.items or [os.path.join(V, "refactors", r) for r in ("R1", "R2", "R3", "R4") if os.path.isdir(os.path.join(V, "refactors", r))]
+        dirs = a.items or [os.path.join(V, "refactors", r) for r in ("R1", "R2", "R3", "R4", "R5") if os.path.isdir(os.path.join(V, "refactors", r))]
         for d in dirs:
             for patch in sorted(glob.glob(os.path.join(os.path.abspath(d), "*.diff"))):
                 work.append((patch, ("patch", patch), props, "quiet"))
